@@ -459,6 +459,10 @@ fn singles(o: &Opts, r: &mut Rng) -> Vec<Single> {
         let t = "2024/01/01 x\n";
         v.push(chain(&format!("{}  A  (", t), "1 USD", " + 1 USD", n, ")\n  B\n"));
         v.push(chain(&format!("{}  A  (", t), "1 USD", " * 1", n, ")\n  B\n"));
+        if n >= 50000 && !o.thorough {
+            // the quick tier keeps two very long chains per length; the thorough tier runs all shapes
+            continue;
+        }
         v.push(chain(&format!("{}  A  (", t), "1", "+1", n, ")\n  B\n"));
         v.push(chain(&format!("{}  A  (", t), "8 USD", "/1", n, ")\n  B\n"));
         v.push(chain(&format!("{}  A  (", t), "1 USD", " - 2 USD * 3 + 4 USD / 5", n, ")\n  B\n"));
@@ -476,6 +480,9 @@ fn singles(o: &Opts, r: &mut Rng) -> Vec<Single> {
     // chains inside nested parentheses: each level is 3 taller (1 + 3n: 85 levels = 256), left
     // and right nested; and chains of chains
     for n in [50usize, 84, 85, 86, 100, 101, 1000, 50000] {
+        if n >= 50000 && !o.thorough {
+            continue;
+        }
         let mut s = nested("2024/01/01 x\n  A  ", "(", n, "1 USD", " + 1 USD + 1 USD)", "\n  B\n");
         s.stream = "long-chain";
         s.process = true;
